@@ -1,6 +1,6 @@
 """C14 — tenant vector quotas are exact (the real kyrodb_server binary; concurrency: see conc part)."""
 from ..common import *
-from .. import corr, rpc, verdict
+from .. import corr, rpc, verdict, conc
 from .C10 import collect, new_stats
 
 MODULE = "KyroModel.Theorems.C14"
@@ -11,6 +11,80 @@ TRUSTED = [
     "count) and removes them again; live documents = BulkQuery census over the id universe; /usage vector_count",
     "engine-side write refusals = wrong dimension (the engine's own failure paths under I/O faults are C03's)",
 ]
+def conc_programs(thorough, rng):
+    """concurrent RPC programs against the REAL handlers (in-process copy of kyrodb_server.rs, `world=srv`): limits 2,2"""
+    mx = 3000 if thorough else 350
+    progs = []
+    W = "warm=sins:0:1:1"             # document 1 of tenant a exists
+    W2 = "warm=sins:0:1:1;sins:0:2:1"  # tenant a at its limit of 2
+    pairs = [
+        (W, "sins:0:1:5", "sdel:0:1"),            # overwrite || delete
+        ("", "sins:0:1:5", "sdel:0:1"),           # insert || delete of the same new id
+        (W, "sins:0:1:5", "sbd:0:1,1"),           # overwrite || batch delete with a duplicate
+        (W, "sdel:0:1", "sdel:0:1"),              # delete || delete
+        (W, "sdel:0:1", "sbd:0:1,2"),
+        ("", "sins:0:1:5", "sins:0:1:6"),         # insert || insert, one id
+        (W, "sins:0:2:5", "sins:0:3:6"),          # two new ids, one free slot
+        (W2, "sins:0:3:5", "sdel:0:1"),           # at the limit: a new id while a slot is being freed
+        (W2, "sins:0:1:5", "sdel:0:2;sins:0:3:6"),
+        (W, "sins:0:1:5;sdel:0:1", "sdel:0:1;sins:0:1:6"),
+        (W, "sum:0:1:7", "sdel:0:1"),
+        (W, "sins:0:1:5", "sins:1:1:6;sdel:1:1"),  # another tenant on the colliding local id
+    ]
+    for w, a, b in pairs:
+        progs.append("explore limits=2,2 %s t0=%s t1=%s mode=dfs bound=2 max=%d" % (w, a, b, mx))
+    ops = ["sins:0:1:5", "sins:0:2:6", "sins:0:3:7", "sdel:0:1", "sdel:0:2", "sbd:0:1,2", "sbd:0:2,3,3", "sum:0:1:9", "sins:1:1:4", "sdel:1:1"]
+    for _ in range(60 if thorough else 10):
+        ts = [";".join(rng.choice(ops) for _ in range(rng.choice([1, 2]))) for _ in range(3)]
+        progs.append("explore limits=2,2 %s t0=%s t1=%s t2=%s mode=random seed=%d max=%d" % (
+            rng.choice([W, W2, ""]), ts[0], ts[1], ts[2], rng.randrange(10 ** 6), 500 if thorough else 70))
+    return [re.sub(r"  +", " ", l) for l in progs]
+
+
+def conc_check(lines, rep):
+    """every final state of every explored schedule: counted = live = usage, live <= limit"""
+    import concurrent.futures
+    chunks = [lines[i::12] for i in range(12)]
+    results = []
+    with concurrent.futures.ThreadPoolExecutor(max_workers=12) as ex:
+        for part in ex.map(lambda ch: conc.explore(ch) if ch else [], chunks):
+            results += part
+    runs = finals = 0
+    bad = {}
+    for line, r in results:
+        if r is None:
+            rep.violation(rep.write_replay("harness_died.ops", "# engine=conc\n%s\n" % line), no_input=True)
+            continue
+        runs += r["runs"]
+        lim = [int(x) for x in re.search(r"limits=(\S+)", line).group(1).split(",")]
+        for h in r["histories"]:
+            finals += 1
+            if h["final"] == "deadlock":
+                continue
+            for i, part in enumerate(h["final"].split(",")):
+                m = re.fullmatch(r"(\w+):counted=(\d+):live=(\d+):usage=(\d+)", part)
+                if not m:
+                    continue
+                counted, live, usage = int(m.group(2)), int(m.group(3)), int(m.group(4))
+                hist = "; ".join("T%d %s=>%s [%d,%d]" % (o["t"], o["op"], o["res"], o["inv"], o["ret"]) for o in sorted(h["ops"], key=lambda o: o["inv"]))
+                if counted != live:
+                    bad.setdefault("c14-conc-count-drift", []).append((line, "tenant %s: %d counted, %d live after %s" % (m.group(1), counted, live, hist)))
+                elif usage != live:
+                    bad.setdefault("c14-conc-usage-drift", []).append((line, "tenant %s: /usage would report %d, %d live after %s" % (m.group(1), usage, live, hist)))
+                if i < len(lim) and live > lim[i]:
+                    bad.setdefault("c14-conc-over-limit", []).append((line, "tenant %s holds %d > limit %d after %s" % (m.group(1), live, lim[i], hist)))
+    for kind, items in bad.items():
+        line, txt = min(items, key=lambda x: len(x[1]))
+        sig = {"engine": "conc", "kind": kind}
+        kf = match_known("C14", sig)
+        if kf:
+            rep.known_finding(kf)
+            continue
+        p = rep.write_replay("%s.ops" % kind, "# engine=conc\n# ORACLE FAILURE on the implementation (real RPC handlers, controlled schedule): %s\n# (%d such final states in this run)\n%s\n" % (txt, len(items), line))
+        rep.violation(p)
+    return {"programs": len(lines), "executions": runs, "distinct_histories": finals, "drift_by_kind": {k: len(v) for k, v in bad.items()}}
+
+
 KINDS = {"c14-overcount", "c14-undercount", "c14-over-limit", "c14-no-refusal", "c14-usage-count", "harness"}
 
 
@@ -26,16 +100,27 @@ def run(tier, seed, replay):
         return rep.finish()
     stats = new_stats()
     cases = []
+    clines = []
     if replay:
-        cases.append(corr.read_replay(replay)[1])
+        eng, ops = corr.read_replay(replay)
+        if eng == "conc":
+            clines = [l for l in ops if l.startswith(("explore ", "replay "))]
+        else:
+            cases.append(ops)
     else:
         d = os.path.join(CORPUS, "C14")
         for p in sorted(os.listdir(d)) if os.path.isdir(d) else []:
-            cases.append(corr.read_replay(os.path.join(d, p))[1])
+            eng, ops = corr.read_replay(os.path.join(d, p))
+            if eng == "conc":
+                clines += [l for l in ops if l.startswith(("explore ", "replay "))]
+            else:
+                cases.append(ops)
+        clines += conc_programs(thorough, rng_for(seed, "C14/conc"))
         rng = rng_for(seed, "C14/rpc")
         for i in range(400 if thorough else 44):
             cases.append(rpc.gen_case(rng, n_ops=70 if thorough else 45, focus="c14"))
     findings = collect(cases, rpc.oracle_c14, KINDS, rep, stats)
+    cstats = conc_check(clines, rep) if clines else {}
     verdict.settle(rep, ok, info, findings, MODULE)
     proof_coverage(rep, info, "cd lean && lake build %s && lake env lean <#print axioms audit>" % MODULE, TRUSTED)
     probes = stats["op_kinds"].get("probe", 0)
@@ -53,8 +138,14 @@ def run(tier, seed, replay):
                 "and by filter, BulkInsert / BulkLoadHnsw batches with duplicate, invalid and wrong-dimension items, batches "
                 "that exceed the limit, graceful restarts at quiescent points (start-up recount), hot-tier capacity 4 or 64. "
                 "After every probe: counted (limit - admitted) = live (census) = /usage vector_count",
+        "concurrent": dict(cstats, rule="pairs of concurrent RPCs on one id (insert||delete, overwrite||delete, overwrite||batch delete with "
+                           "duplicates, delete||delete, insert||insert, new ids racing for the last slot, metadata update||delete, another "
+                           "tenant on the colliding local id) against the REAL handlers of kyrodb_server.rs (build-time copy included in the "
+                           "harness), stateless DFS over schedules at lock-acquisition granularity, preemption bound 2; random schedules of "
+                           "three threads. Every final state: counted = live = usage, live <= limit"),
         "exhaustive": False,
         "harness_build_s": round(bsecs, 1), "server_build_s": round(ssecs, 1),
     })
-    rep.assumptions = ["sequential histories + restarts here; concurrent pairs: conc exploration (see coverage.concurrent)"]
+    rep.assumptions = ["interleavings at lock-acquisition granularity (atomics and lock-free sections run atomically between scheduling points)",
+                       "streaming RPCs (BulkInsert / BulkLoadHnsw) are exercised sequentially only"]
     return rep.finish()
